@@ -38,13 +38,38 @@ func (q vhLeafQ) Exec(ctx *Context, loc *Location, qc QueryContext, qr QueryResu
 	return &acc, nil
 }
 
+// vhNeedsQ: keeps exactly the incoming bindings in which ?v<id> is bound (so its result
+// depends on what the conjuncts evaluated before it have bound: and is not commutative).
+type vhNeedsQ struct{ id int }
+
+func (q vhNeedsQ) Exec(ctx *Context, loc *Location, qc QueryContext, qr QueryResult) (*QueryResult, error) {
+	acc := QueryResult{make([]Bindings, 0, 0), qr.Checked, qr.Elapsed}
+	for _, bs := range qr.Bss {
+		if _, bound := bs["?v"+strconv.Itoa(q.id)]; bound {
+			acc.Bss = append(acc.Bss, bs)
+		}
+	}
+	return &acc, nil
+}
+
+// vhErrQ: fails (like a condition script that throws) whenever it is run on at least one
+// binding.
+type vhErrQ struct{}
+
+func (q vhErrQ) Exec(ctx *Context, loc *Location, qc QueryContext, qr QueryResult) (*QueryResult, error) {
+	if len(qr.Bss) > 0 {
+		return nil, NewSyntaxError("leaf failed")
+	}
+	return &QueryResult{make([]Bindings, 0, 0), qr.Checked, qr.Elapsed}, nil
+}
+
 type vhQGen struct{ n int }
 
 // gen builds a query tree of at most the given depth (structure is an explored decision).
 func (g *vhQGen) gen(depth int) Query {
-	max := 2
+	max := 4
 	if depth > 0 {
-		max = 5
+		max = 7
 	}
 	switch vchoose(max) {
 	case 0:
@@ -53,8 +78,13 @@ func (g *vhQGen) gen(depth int) Query {
 	case 1:
 		return EmptyQuery{}
 	case 2:
-		return AndQuery{Conjuncts: g.children(depth - 1)}
+		// refers to the first or the second binding leaf of the tree, wherever it is
+		return vhNeedsQ{id: 1 + vchoose(2)}
 	case 3:
+		return vhErrQ{}
+	case 4:
+		return AndQuery{Conjuncts: g.children(depth - 1)}
+	case 5:
 		return OrQuery{Disjuncts: g.children(depth - 1), ShortCircuit: vchoose(2) == 1}
 	}
 	return NotQuery{Negated: g.gen(depth - 1)}
@@ -69,43 +99,61 @@ func (g *vhQGen) children(depth int) []Query {
 	return qs
 }
 
-// vhEval: the denotation of a query tree on a list of bindings (lists are multisets).
-func vhEval(q Query, in []Bindings) []Bindings {
+// vhEval: the denotation of a query tree on a list of bindings (lists are multisets); the
+// second result says that evaluation fails (a leaf that fails when run makes the whole
+// query fail, in evaluation order).
+func vhEval(q Query, in []Bindings) ([]Bindings, bool) {
 	switch t := q.(type) {
 	case vhLeafQ:
 		r, _ := t.Exec(nil, nil, QueryContext{}, QueryResult{Bss: in})
-		return r.Bss
+		return r.Bss, false
+	case vhNeedsQ:
+		r, _ := t.Exec(nil, nil, QueryContext{}, QueryResult{Bss: in})
+		return r.Bss, false
+	case vhErrQ:
+		return nil, len(in) > 0
 	case EmptyQuery:
-		return in
+		return in, false
 	case AndQuery:
 		cur := in
 		for _, c := range t.Conjuncts {
-			cur = vhEval(c, cur)
+			var failed bool
+			cur, failed = vhEval(c, cur)
+			if failed {
+				return nil, true
+			}
 		}
-		return cur
+		return cur, false
 	case OrQuery:
 		var out []Bindings
 		for _, bs := range in {
 			for _, d := range t.Disjuncts {
-				r := vhEval(d, []Bindings{bs})
+				r, failed := vhEval(d, []Bindings{bs})
+				if failed {
+					return nil, true
+				}
 				out = append(out, r...)
 				if t.ShortCircuit && len(r) > 0 {
 					break
 				}
 			}
 		}
-		return out
+		return out, false
 	case NotQuery:
 		var out []Bindings
 		for _, bs := range in {
-			if len(vhEval(t.Negated, []Bindings{bs})) == 0 {
+			r, failed := vhEval(t.Negated, []Bindings{bs})
+			if failed {
+				return nil, true
+			}
+			if len(r) == 0 {
 				out = append(out, bs)
 			}
 		}
-		return out
+		return out, false
 	}
 	vassume(false)
-	return nil
+	return nil, false
 }
 
 // vhSameMultiset: equal as multisets (both lists are concrete in length on a path).
@@ -164,8 +212,12 @@ func VH_C03_combinators(top, nIn int) {
 	}
 	in0 := vsnapshot([]interface{}{map[string]interface{}(in[0])})
 	got, err := ExecQuery(nil, q, nil, QueryContext{}, QueryResult{Bss: in})
-	vassert(err == nil, "exec-no-error")
-	want := vhEval(q, in)
+	want, wantFail := vhEval(q, in)
+	vassert((err != nil) == wantFail, "fails-iff-a-subquery-that-is-run-fails")
+	if err != nil || wantFail {
+		vreach("end")
+		return
+	}
 	vassert(vhSameMultiset(got.Bss, want), "result-equals-denotation")
 	vassert(vdeepEq([]interface{}{map[string]interface{}(in[0])}, in0), "incoming-bindings-unmodified")
 	vreach("end")
@@ -365,7 +417,6 @@ func VH_C03_parse(key, kind int) {
 	vreach("end")
 }
 
-
 // vhIsNum: x is the number n, whichever Go numeric type carries it.
 func vhIsNum(x interface{}, n int64) bool {
 	switch v := x.(type) {
@@ -378,7 +429,6 @@ func vhIsNum(x interface{}, n int64) bool {
 	}
 	return false
 }
-
 
 // VH_C03_or_code: an or whose first disjunct is a code term returning an object, followed
 // by a pattern disjunct: the second disjunct must see the original binding.
